@@ -55,15 +55,26 @@ def detect(ids):
     base, err = keys_for(base_work)
     shutil.rmtree(tmp0, ignore_errors=True)
     missed = 0
-    for sid in ids:
+
+    def one(sid):
         tmp, work, ok, msg = scratch_with_patch(sid)
         try:
             if not ok:
-                print("%-28s patch does not apply: %s" % (sid, msg[:200]))
-                continue
+                return (sid, None, "patch does not apply: %s" % msg[:200])
             res, err = keys_for(work)
             if res is None:
-                print("%-28s does not compile: %s" % (sid, err[:200]))
+                return (sid, None, "does not compile: %s" % err[:200])
+            return (sid, res, None)
+        finally:
+            shutil.rmtree(tmp, ignore_errors=True)
+    from concurrent.futures import ThreadPoolExecutor
+    with ThreadPoolExecutor(max_workers=8) as ex:
+        results = list(ex.map(one, ids))
+    for sid, res, err in results:
+        tmp = None
+        try:
+            if res is None:
+                print("%-28s %s" % (sid, err))
                 continue
             fired = {p: [k for k in ks if k not in base.get(p, [])] for p, ks in res.items()}
             fired = {p: ks for p, ks in fired.items() if ks}
@@ -79,7 +90,7 @@ def detect(ids):
                 missed += 1
             print("%-28s target=%s %s fired=%s" % (sid, target, "CAUGHT" if hit else "MISSED", {p: len(k) for p, k in fired.items()}))
         finally:
-            shutil.rmtree(tmp, ignore_errors=True)
+            pass
     return 1 if missed else 0
 
 
